@@ -157,7 +157,9 @@ impl Prop for C02 {
         }
         let cfg = CtxCfg { addr: 0x23, msg_types: vec![0x7E], vendors: vec![(0, 0x1234, 0xAB)] };
         let mut idx = 0usize;
-        for p in super::c10::base_packets() {
+        let mut packets = super::c10::base_packets();
+        packets.push(refmodel::build_packet(0x23, 0x34, 0x23, 0x34, 0xC8, 0x7F, &(0..249u32).map(|i| (i * 7 + 1) as u8).collect::<Vec<u8>>()));
+        for p in packets {
             let nbits = p.len() as u32 * 8 - 7;
             for bit in 0..nbits {
                 for pattern in 1..=255u8 {
@@ -171,7 +173,7 @@ impl Prop for C02 {
         }
     }
     fn enumerated_desc(&self, tier: Tier) -> Option<String> {
-        (tier == Tier::Thorough).then(|| "every bit offset x every non-zero 8-bit pattern for 24 reference-encoded packets (all message types, requests and responses)".to_string())
+        (tier == Tier::Thorough).then(|| "every bit offset x every non-zero 8-bit pattern for 24 reference-encoded packets (all message types, requests and responses) and one maximum-length (259-byte) packet".to_string())
     }
     fn run(&self, case: &Case) -> CaseResult {
         let mut r = CaseResult::default();
